@@ -113,7 +113,7 @@ type CoversCase struct {
 }
 
 // the last six are lower-case letters that are related by Unicode case FOLDING only (σ/ς, µ/μ, ſ/s): distinct segments
-var segAlphabet = []string{"a", "b", "ab", "foo", "foobar", "é", "1", "a-b", "", "σ", "ς", "µ", "μ", "ſ", "s", ".", ".."}
+var segAlphabet = []string{"a", "b", "ab", "foo", "foobar", "é", "1", "a-b", "", "σ", "ς", "µ", "μ", "ſ", "s", ".", "..", "*", "**", "?", "%2a", "~", "{x}", ":id", "+"}
 
 var nonEmptySegs = func() []string {
 	var out []string
@@ -280,7 +280,7 @@ func TestCovers(t *testing.T) { covers.Check(t) }
 // segments over the alphabet (and all triples of a sub-alphabet).
 func TestCoversExhaustive(t *testing.T) {
 	maxSeg := h.N(3, 4)
-	alpha := segAlphabet
+	alpha := []string{"a", "b", "ab", "foo", "foobar", "é", "1", "a-b", "", "σ", "ς", "µ", "μ", "ſ", "s", ".", "..", "*"}
 	if maxSeg == 4 {
 		alpha = []string{"a", "ab", "foo", "foobar", "é", "", "σ", "ς"}
 	}
@@ -415,7 +415,7 @@ func (l oneLoader) GetDelegation(c cid.Cid) (*delegation.Token, error) {
 	return nil, delegation.ErrDelegationNotFound
 }
 
-var parseRunes = []rune{'/', '/', '/', 'a', 'b', 'z', 'A', 'Z', 'é', 'É', 'ß', 'ж', 'Ж', '1', '-', '_', ' ', '.', 'ほ', 'Σ', 'σ', 'ς', 'Ⅰ', 'ⅰ', 'Ⓐ', 'ⓐ', 'ǅ', '𝐀', 'ſ', 'µ', '\t', '\n', '\x00', '\x7f', '\u0085', '\u00a0', '\u200b', '\u2028', '\ufeff', '%', '\\', '"'}
+var parseRunes = []rune{'/', '/', '/', 'a', 'b', 'z', 'A', 'Z', 'é', 'É', 'ß', 'ж', 'Ж', '1', '-', '_', ' ', '.', 'ほ', 'Σ', 'σ', 'ς', 'Ⅰ', 'ⅰ', 'Ⓐ', 'ⓐ', 'ǅ', '𝐀', 'ſ', 'µ', '\t', '\n', '\x00', '\x7f', '\u0085', '\u00a0', '\u200b', '\u2028', '\ufeff', '%', '\\', '"', '*', '*', '?', '#', '~', '+', ':', ';', '=', '&', '@', '{', '}', '$'}
 
 func runParse(c *h.Ctx, pc ParseCase) {
 	if pc.Prime > 0 && strings.HasPrefix(pc.S, "/") && len(pc.S) > 1 {
